@@ -769,11 +769,13 @@ impl FrameHeader {
 
     /// Frame dimensions before upsampling / after crop.
     pub fn frame_size(&self, img: &ImageHeader) -> (u32, u32) {
-        if self.eff_have_crop() {
-            (self.width, self.height)
-        } else {
-            (img.size.width, img.size.height)
+        let (w, h) = if self.eff_have_crop() { (self.width, self.height) } else { (img.size.width, img.size.height) };
+        if self.frame_type == FT_LF {
+            // an LF frame codes the image downsampled by 8 per level
+            let s = 3 * self.lf_level;
+            return ((w + (1 << s) - 1) >> s, (h + (1 << s) - 1) >> s);
         }
+        (w, h)
     }
 
     pub fn is_full_frame(&self, img: &ImageHeader) -> bool {
